@@ -149,7 +149,7 @@ def candidates(spec):
 def minimise(ctx, tools, j, sig, rounds=14):
     """greedy delta debugging: keep any one-step reduction that is still judged with the same
     signature (same verdict, same differing observables), so the case cannot drift into a
-    different failure (e.g. an include directory that no longer exists)"""
+    different failure (e.g. an include directory that no longer exists).  Returns (case, sig)."""
     best = j
     for rnd in range(rounds):
         cands = candidates(best["spec"])
@@ -161,11 +161,13 @@ def minimise(ctx, tools, j, sig, rounds=14):
         bad, _, err = judge(ctx, terms, fn="proto_judge_sig", tag="min%d" % rnd, shard=4000)
         if err:
             break
-        same = [i for i, c in bad if c == sig]
+        # same verdict, and nothing differs that did not differ before (the set may shrink: e.g.
+        # dropping -grpc removes the grpc mappings from the difference, it never adds a new one)
+        same = [(i, c) for i, c in bad if c % 4 == sig % 4 and (c // 4) & ~(sig // 4) == 0]
         if not same:
             break
-        best = jsons[same[0]]
-    return best
+        best, sig = jsons[same[0][0]], same[0][1]
+    return best, sig
 
 
 def view(j):
